@@ -531,10 +531,7 @@ def _cmp(t, exp, got, path, viol):
             viol.append({"what": f"{path}: {n} is {sx(got[i])[:80]}, declared {sx(exp[i])[:80]}"})
         elif exp[i] != "-":
             if i == 5:
-                if t["k"] == "vec" and t["t"] == prim("i8") and got[i][0] == "UINT8":
-                    viol.append({"what": f"{path}: Vec<i8> publishes element kind UINT8, declared INT8", "cause": "vec-i8-element-described-as-uint8"})
-                else:
-                    _cmp(t["t"], exp[i], got[i], path + "/elem", viol)
+                _cmp(t["t"], exp[i], got[i], path + "/elem", viol)     # (D-gen-4 repaired: Vec<i8> is no longer special)
             else:
                 sub = prim(t["disc"]) if t["k"] == "union" else prim({8: "i8", 16: "i16", 32: "i32"}[t["bits"]])
                 _cmp(sub, exp[i], got[i], path + "/disc", viol)
@@ -550,7 +547,7 @@ def _cmp(t, exp, got, path, viol):
     if t["k"] == "struct":
         gids = [int(m[2]) for m in gm]
         if len(set(gids)) != len(gids):
-            viol.append({"what": f"{path}: member ids {gids} are not distinct", "cause": "duplicate-member-id-accepted"})
+            viol.append({"what": f"{path}: member ids {gids} are not distinct"})
         explicit_nonmut = t["ext"] != "mutable" and any(f["id"] is not None and not f["hashid"] for f in t["fields"])
     for j, (e, g) in enumerate(zip(em, gm)):
         p2 = f"{path}.{e[1]}"
@@ -580,14 +577,15 @@ def _cmp(t, exp, got, path, viol):
 
 def union_select(u, k):
     """which variant the generated `match disc {...}` should select for a value of variant k: k itself.
-    Returns the cause string if the arms as documented cannot do that, else None (pure reading of the declaration)."""
+    Returns the cause string if the arms as documented cannot do that, else None (pure reading of the declaration).
+    Since the repair of D-gen-5 the position of the default variant does not matter: only a label collision is left."""
     def first(i, v): return v["cases"][0] if v["cases"] else i + 1
     d = first(k, u["variants"][k])
     for i, v in enumerate(u["variants"]):
-        if i == k:
-            return None
-        if v["default"]:
-            return "union-default-arm-shadows-later-cases"
+        if v["default"] or i == k:
+            if i == k and not v["default"]:
+                return None          # the first non-default arm with this label is k itself
+            continue
         if first(i, v) == d:
             return "union-first-label-collision"
     return None
@@ -602,9 +600,6 @@ def roundtrip_blockers(t, v, out):
     elif k == "opt" and v[0] == "some":
         roundtrip_blockers(t["t"], v[1], out)
     elif k == "struct":
-        ids = [i for i, f in zip(code_ids(t), t["fields"]) if not f["nonser"]]
-        if len(set(ids)) != len(ids):
-            out.add("duplicate-member-id-accepted")
         for f, x in zip(t["fields"], v[1]):
             if not f["nonser"]:
                 roundtrip_blockers(f["t"], x, out)
